@@ -1,11 +1,13 @@
 """C13 -- shape-manipulating operations act slice-wise like NumPy, with view semantics."""
 import random
 from .opbased import op_part
+from .common import deductive_part
 from bounded import misc_checks
 LEVEL = 'exploration'
 
 
 def run(rep, tier, seed):
+    rc0, _res = deductive_part(rep, 'C13', tier, seed)          # _transpose: every matrix cell transposed, nothing written (the one shape operation inside the executor's model)
     n, d, samples = op_part(rep, 'C13', tier, seed, kinds=('getitem', 'transpose', 'reshape', 'sum', 'tile', 'diag', 'tri', 'trace', 'neg', 'conj', 'real', 'imag', 'fft', 'ifft', 'zeros', 'ones', 'symvec'))
     rep.add_bounded('slice-wise table', n, d, 'indexing (ints, negative, steps, Ellipsis, newaxis, tuples), transpose, reshape, sum over every axis, tile, diag, triu/tril, trace, neg, conjugate, real/imag, fft/ifft (axis, n), zeros/ones_like: out.data[d,p] == NumPy op on x.data[d,p]; numpy.shares_memory agreement and write-through for views', samples, 'rank<=3, D<=6, P<=3')
     rng = random.Random(6400 + seed); m = 0; k = set(); s2 = []
@@ -15,4 +17,4 @@ def run(rep, tier, seed):
         if fail: rep.violation('setitem/ctor', str(case.get('index', case.get('ctor'))) + ':' + str(case.get('rhs', '')), '%s: %s' % (case, fail), {'kind': 'setitem', 'case': case, 'failure': fail})
     rep.add_bounded('item assignment and constructors', m, len(k), 'x[index] = rhs for rhs in {UTPM, broadcast UTPM, float, int, ndarray} x basic index forms vs the NumPy assignment per slice (constants clear higher coefficients); zeros/ones with polynomial dtype', s2, 'rank<=2')
     rep.extra['explanation'] = 'NumPy is the executable specification; the index plumbing (slice(None),slice(None))+sl is straight-line code exercised over all basic index forms'
-    return 0
+    return rc0
